@@ -34,14 +34,28 @@ def main():
             checks = args[i + 1].split(',')
         if a == '--tier':
             tier = args[i + 1]
-    src = f'/tmp/seed/{prop}/_out'
+    srcroot = '/tmp/seed'
+    suffix = ''
+    for i, a in enumerate(args):
+        if a == '--src':
+            srcroot = args[i + 1]
+        if a == '--suffix':
+            suffix = '-' + args[i + 1]
+    src = f'{srcroot}/{prop}/_out'
+    out = f'/verif/seeded/{prop}-{which}{suffix}'
+    os.makedirs(out, exist_ok=True)
     patch = f'{src}/{which}.patch.diff'
     demo = f'{src}/{which}_demo_test.go'
-    meta = json.load(open(f'{src}/{which}.meta.json'))
-    out = f'/verif/seeded/{prop}-{which}'
-    os.makedirs(out, exist_ok=True)
-    shutil.copy(patch, f'{out}/patch.diff')
-    shutil.copy(demo, f'{out}/demo_test.go')
+    if os.path.exists(patch):
+        meta = json.load(open(f'{src}/{which}.meta.json'))
+        shutil.copy(patch, f'{out}/patch.diff')
+        shutil.copy(demo, f'{out}/demo_test.go')
+    else:
+        # the agent's scratch directory is gone: use the kept copy
+        meta = json.load(open(f'{out}/meta.json'))
+        meta.setdefault('ran', meta.get('agent_ran'))
+    patch = f'{out}/patch.diff'
+    demo = f'{out}/demo_test.go'
     res = {'property': prop, 'summary': meta.get('summary'), 'needs': meta.get('needs'), 'agent_ran': meta.get('ran'), 'ran': []}
     if skip and os.path.exists(f'{out}/meta.json'):
         try:
